@@ -182,7 +182,23 @@ class Server:
         except urllib.error.HTTPError as e:
             return e.code, e.read(), dict(e.headers)
         except (urllib.error.URLError, ConnectionError, socket.timeout) as e:
-            raise ToolError("request %s %s failed: %s" % (method, path, e))
+            raise ToolError("request %s %s failed: %s%s" % (method, path, e, self.diagnose()))
+
+    def diagnose(self):
+        """Process state and the tail of the server's output, for tool-error messages (a server that panicked says so there)."""
+        out = "\n  server %s: %s" % (self.name, "alive" if self.alive() else "NOT running (exit %s)" % (self.proc.returncode if self.proc else "?"))
+        try:
+            import glob
+            for f in sorted(glob.glob(os.path.join(self.dir, "stdout-*.log")))[-1:]:
+                txt = open(f, errors="replace").read()
+                i = txt.find("panic:")
+                j = txt.find("fatal error:")
+                k = min([x for x in (i, j) if x >= 0] or [-1])
+                tail = txt[k:k + 3000] if k >= 0 else txt[-1500:]
+                out += "\n  %s: %s" % (os.path.basename(f), tail.replace("\n", "\n    "))
+        except OSError:
+            pass
+        return out
 
     def query(self, q, db=None, params=None, method="GET", **kw):
         p = {"q": q, "epoch": "ns"}
